@@ -3,5 +3,6 @@ CONSTANTS
   Names = {"a", "b"}
   Missing = "zz"
   MaxMods = 2
+  MaxEdges = 9
 INVARIANT Emit1
 CHECK_DEADLOCK FALSE
